@@ -137,6 +137,20 @@ CHECKS = {
         note='Trusted: z3 (linear real arithmetic), the torch shim (cat / argmax / slicing / masks; witness replay on real torch), '
              'unique maxima (ties are outside: torch and numpy need not agree on them).',
         design='4/C04'),
+    'C01': dict(
+        text='Bounded symbolic execution of the real PAGE XML writer and reader (to_pagexml_string, RegionLayout.to_page_xml, '
+             'from_pagexml, get_region_from_page_xml, points_string_to_array, reading-order functions) on layouts whose '
+             'coordinates, heights, confidences, indices, page size and reading-order indices are symbolic reals / integers '
+             '(negative and fractional values included); numbers inside attribute strings are placeholders that parse back to the '
+             'printed value (exact for integers, correctly rounded for .1f / .3f).  z3 decides per path: every imported coordinate '
+             '= round-half-even of the original, heights within 0.05, confidence within 0.0005, indices / ids / types / texts / '
+             'page size identical (\'\' vs absent kept apart); export(import(export(L))) is a fixpoint (trees equal, placeholders '
+             'provably equal values) for both PAGE versions; regions are held, written and re-loaded sorted by reading-order index '
+             '(unlisted last, stable) for every index assignment and every partial map.  Bound: <= 2 regions x <= 2 lines, 3-point '
+             'polygons, 3 regions for the reading order (quick); 3 regions, 4-point polygons, 4 regions (thorough).',
+        note='Trusted: z3; the lxml stub (serialise . parse = identity on structure/attributes/text, \'\' -> None, default namespace): '
+             'XML escaping and Unicode legality are inside lxml and outside the claim; witness replay uses the real lxml.',
+        design='4/C01'),
 }
 
 NOT_APPLICABLE = {
